@@ -67,7 +67,38 @@ pub fn show_msg(m: &Msg, n: usize) -> String {
     }
 }
 
-/// the same bytes placed at every residue mod 8 of the address space: decoding must depend on the bytes only
+/// a per-thread mapping `[PROT_NONE page][DATA_PAGES read/write pages][PROT_NONE page]`: a buffer placed flush against either
+/// guard page turns any read outside the slice (C04: "stays inside the buffer") into a fault - the process dies and the
+/// runner reports the case in progress (`ABORT`) - instead of a silently ignored read of neighbouring heap bytes
+const DATA_PAGES: usize = 64;
+thread_local! {
+    static GUARDED: std::cell::OnceCell<(usize, usize)> = const { std::cell::OnceCell::new() };
+}
+
+fn guarded_region() -> Option<(usize, usize)> {
+    GUARDED.with(|g| {
+        *g.get_or_init(|| unsafe {
+            let page = libc::sysconf(libc::_SC_PAGESIZE) as usize;
+            let total = (DATA_PAGES + 2) * page;
+            let base = libc::mmap(std::ptr::null_mut(), total, libc::PROT_READ | libc::PROT_WRITE,
+                                  libc::MAP_PRIVATE | libc::MAP_ANONYMOUS, -1, 0);
+            if base == libc::MAP_FAILED {
+                return (0, 0);
+            }
+            let base = base as usize;
+            if libc::mprotect(base as *mut libc::c_void, page, libc::PROT_NONE) != 0
+                || libc::mprotect((base + (DATA_PAGES + 1) * page) as *mut libc::c_void, page, libc::PROT_NONE) != 0
+            {
+                return (0, 0);
+            }
+            (base + page, DATA_PAGES * page)
+        })
+    })
+    .into()
+}
+
+/// the same bytes placed at every residue mod 8 of the address space, and flush against an inaccessible page on either side:
+/// decoding must depend on the bytes only and must not touch anything outside them
 fn at_every_placement(buf: &[u8], f: impl Fn(&[u8]) -> String) -> String {
     let mut backing = vec![0u8; buf.len() + 16];
     let pad = (8 - (backing.as_ptr() as usize) % 8) % 8;
@@ -80,6 +111,20 @@ fn at_every_placement(buf: &[u8], f: impl Fn(&[u8]) -> String) -> String {
             None => first = Some(r),
             Some(r0) if *r0 != r => return format!("PLACEMENT-DEPENDENT at address residue {}: {} // residue 0: {}", off, r, r0),
             _ => {}
+        }
+    }
+    if let Some((start, len)) = guarded_region() {
+        if len >= buf.len() && len > 0 {
+            for (what, at) in [("end flush against an inaccessible page", start + len - buf.len()), ("start flush against an inaccessible page", start)] {
+                let s = unsafe {
+                    std::ptr::copy_nonoverlapping(buf.as_ptr(), at as *mut u8, buf.len());
+                    std::slice::from_raw_parts(at as *const u8, buf.len())
+                };
+                let r = f(s);
+                if Some(&r) != first.as_ref() {
+                    return format!("PLACEMENT-DEPENDENT with the {}: {} // on the heap: {}", what, r, first.unwrap_or_default());
+                }
+            }
         }
     }
     first.unwrap()
